@@ -63,6 +63,7 @@ const streamRule = "stream (E2, worker process, real hsmsss connection Selected 
 	"seg: one write, all-single-bytes, every single cut, every pair of cuts (quick: pairs for the 20 streams of <= 2 frames and 6 three-frame streams; thorough: all 84); plus 5 streams with a 70 000-byte data frame and frames pipelined behind it {B, BL, BP, LBH, BBL}: one write, and cuts at the big frame's start +1/+4/+14/+4096/+65536/+65540, its end -1/0/+1; " +
 	"plus 10 streams with a frame the library rejects from its header (PType 1 / undefined SType 8) that CARRIES a body of 5, 6 or 2 000 bytes and frames pipelined behind it {RL, RP, UL, UP, PRP, LUH, QL, QP, LQH, QQP}: one write and every single cut (the 2 000-byte ones: cuts around the header, 1 024 bytes into the body and the frame end) — exactly one Reject.req per such frame, the frames behind it answered / delivered; " +
 	"gap: every single cut x pause {T8-1ms, T8+1ms, 10*T8, 100*T8} (quick: the same 26 streams; thorough: all), every single cut x pause T8+1ms with a local SendDataMessage at T8/2 into the pause (the library's own write must not extend or clear the peer's T8), idle {T8+1ms, 100*T8} before the first byte, all-single-bytes with T8-1ms / T8+1ms between bytes, every pair of cuts x pause pairs {(T8/8, T8-1ms), (1ms, T8-1ms), (T8-1ms, T8/8)} on the streams of <= 2 frames (the deadline counts from the last byte, not from an earlier arming); thorough: every pair of cuts x pauses {T8-1ms, T8+1ms}^2 on the streams of <= 2 frames; " +
+	"after every drop by T8 the next link is attached, left idle for T8 + 0.5 s before its first frame (an idle gap: not dropped) and selected; " +
 	"retune: T8 changed to 2.5 s / 0.4 s by UpdateConfigOptions on the live session, one complete frame later (the receive loop samples T8 per frame) streams P, PL, LS x every single cut x pause {T8'-1ms, T8'+1ms}: the T8 in force decides; " +
 	"len: first four bytes in {0..9, cap+1, cap+2, 2^31, 2^32-1} alone / followed by a header / byte by byte / directly behind a valid frame: dropped at the same virtual instant with TotalAlloc delta < 1 MiB; legal edge lengths 10, 11 (+stall), cap (+stall): not dropped before T8, dropped after. " +
 	"oracle = reference framing model (deliveries byte-identical and in order, Linktest.rsp echoes, State(), peer EOF, re-dial / re-listen after a drop)"
@@ -229,6 +230,34 @@ func (r *streamRun) expectDropped(cls, where string) bool {
 	return true
 }
 
+// idleOnNextLink: after a link was given up in the middle of a frame, the next link starts clean:
+// an idle wait before its first frame (T8 + 0.5 s here, below the new link's own T6 / T7) is an idle gap between frames and never times out.
+func (r *streamRun) idleOnNextLink(where string) bool {
+	w := r.w
+	idle := r.sc.t8() + 500*time.Millisecond
+	if idle >= 2*time.Second {
+		return true // T6 (2 s) / T7 (4 s) of the new link would be the ones to fire: nothing to learn about T8
+	}
+	ok := false
+	for k := 0; k < 20 && !ok; k++ {
+		ok = w.AttachPeer(r.sc.Active)
+		if !ok {
+			w.Advance(50 * time.Millisecond)
+		}
+	}
+	if !ok {
+		return r.bad("stream:gap:no-next-link", "%s: no new link within 1 s of the drop", where)
+	}
+	w.Advance(idle)
+	if w.Peer.SawEOF() || w.C.State() == hsms.NotConnectedState {
+		return r.bad("stream:gap:idle-next-link-dropped", "%s: the link was given up in the middle of a frame; the NEXT link was dropped while it sat idle for %v before its first frame (State()=%v, peer EOF=%v): an idle gap never times out", where, idle, w.C.State(), w.Peer.SawEOF())
+	}
+	if err := w.SelectOnPeer(r.sc.Active); err != nil {
+		return r.bad("stream:gap:next-link-select", "%s: select on the next link after an idle wait of %v: %v", where, idle, err)
+	}
+	return true
+}
+
 // observed deliveries / answers against the frames that are complete
 func (r *streamRun) expectDone(frames []peer.Frame, upto int, answers []peer.Frame, where string) bool {
 	var wantDel [][]byte
@@ -362,6 +391,9 @@ func streamSeg(r *streamRun) string {
 				}
 				answers = append(answers, w.Read()...)
 				if !r.expectDropped("in-frame-gap-above-t8", where) || !r.expectDone(frames, complete(off), answers, where+", after the drop") {
+					return ""
+				}
+				if !r.idleOnNextLink(where) {
 					return ""
 				}
 				return "dropped-by-t8"
